@@ -148,6 +148,46 @@ def perturb_irrelevant_config(w, t) -> None:
         w.probe("perturbed_sender_fault_table")
 
 
+def source_store_hiccups(w, t) -> dict:
+    """Storage fault at the sending entity: the n-th read_data call of the run (and the j following ones) raises, as a
+    transient EACCES / EIO or a file that is briefly moved away would; the user catches the exception that comes out of
+    state_machine and keeps calling. Returns the counter dict (fired = number of raised errors)."""
+    st = {"n": t.choose(12, "read fault at nth read"), "left": 1 + t.choose(3, "read fault repeats"), "fired": 0}
+    kind = t.choose(3, "read fault kind")
+
+    def decide(who, op, path, *extra):
+        if who != "a" or op != "read_data":
+            return None
+        if st["n"] > 0:
+            st["n"] -= 1
+            return None
+        if st["left"] <= 0:
+            return None
+        st["left"] -= 1
+        st["fired"] += 1
+        w.link.fired["src_read_error"] = w.link.fired.get("src_read_error", 0) + 1
+        return [PermissionError, FileNotFoundError, OSError][kind](str(path))
+
+    w.fs_fault_x = decide
+    return st
+
+
+def ticked_pacing(w, t, intervals=None) -> None:
+    """Both entities run the usual main loop `for pdu in arrived: state_machine(pdu) / else state_machine(); sleep(P)`
+    with the same period P and a phase offset. With P at or above a timer interval the awaited PDU is regularly handed
+    over in the very call that also finds the timer expired (timer / PDU arrival race); the answer to everything a
+    handler sends still arrives within one period, so no expiry is caused by the pacing alone."""
+    c = w.cfg
+    iv = sorted({int(x * 1000) for x in (intervals or (c.ack_s, c.nak_s)) if x < 1000})
+    base = iv[t.choose(len(iv), "tick base interval")]
+    p = [base + 20, int(base * 1.6), max(int(base * 0.6), 150), 2 * base + 20][t.choose(4, "tick period")]
+    w.pacing = "ticked"
+    w.tick_ms = p
+    lo = c.lat_ms + 5
+    hi = max(p - 2 * c.lat_ms - 60, lo + 1)
+    w.tick_phase_ms = lo + [0, (hi - lo) // 3, (hi - lo) // 2, hi - lo][t.choose(4, "tick phase")]
+
+
 def faultfree(t, attach=None, force=None) -> Ctx:
     """C02 population: perfect link, plain shell, timers far away, tape-decided pacing."""
     f = {"shell": "plain", "ack_s": BIG, "nak_s": BIG, "check_s_send": BIG, "check_s_recv": BIG}
@@ -166,6 +206,14 @@ def faultfree(t, attach=None, force=None) -> Ctx:
         # on an in-order link the receiver never starts its check timer, so its interval may be short; the sender's
         # stays far away (the two are separate settings of the check timer provider)
         cfg.check_s_recv = 0.003  # shorter than any round trip
+    if t.choose(4, "event-driven caller") == 3:
+        # "any pacing of state-machine calls relative to PDU delivery": a caller that runs the state machines only
+        # while they have something to do and when a PDU arrives. No call can then fall between the expiry of the
+        # sender's check timer (unacknowledged mode with closure) and the arrival of the Finished PDU, so that timer
+        # may be shorter than the round trip: the Finished PDU arrives in the very call that would notice the expiry
+        w.pacing = "event"
+        cfg.lat_ms = [200, 700][t.choose(2, "long latency")]
+        cfg.check_s_send = [0.02, 0.05, 0.3][t.choose(3, "short sender check interval")]  # > the follow-up call, < round trip
     if t.choose(4, "prelude") == 3:
         same = bool(t.choose(2, "prelude same request"))
         prelude(w, same_request=same, idle_ms=[0, 5000, 200_000_000][t.choose(3, "prelude idle")],
@@ -178,7 +226,7 @@ def faultfree(t, attach=None, force=None) -> Ctx:
         w.max_t += w.clock.t
     _start(ctx, attach)
     ctx.reason = w.run()
-    ctx.nontrivial = w.pacing == "random"
+    ctx.nontrivial = w.pacing in ("random", "event")
     return ctx
 
 
@@ -206,9 +254,13 @@ def bounded_faults(t, attach=None, force=None) -> Ctx:
     w.link.enabled = set(FAULT_SETS[t.choose(len(FAULT_SETS), "fault set")])
     w.link.rate = [(1, 5), (1, 3), (1, 10), (1, 2)][t.choose(4, "fault rate")]
     w.link.budget = K
-    # timer / PDU arrival races: in a third of the runs every poll interval is drawn from the tape
-    if t.choose(3, "pacing") == 2:
+    # timer / PDU arrival races: in a quarter of the runs every poll interval is drawn from the tape, in another
+    # quarter both entities run a main loop with a period around the timer intervals (ticked pacing)
+    pv = t.choose(4, "pacing")
+    if pv == 2:
         w.pacing = "random"
+    elif pv == 3:
+        ticked_pacing(w, t)
     ctx.info["K"] = K
     perturb_irrelevant_config(w, t)
     # a fifth of the runs: the handlers already completed (or cancelled) a transfer and were idle for a while
@@ -223,6 +275,8 @@ def bounded_faults(t, attach=None, force=None) -> Ctx:
                 lose_first_eof=t.choose(3, "prelude loses first EOF") == 2)
         w.link.budget = saved_budget
     longest = max(cfg.ack_s, cfg.nak_s)
+    if w.pacing == "ticked":
+        longest += 2 * w.tick_ms / 1000  # an expiry is noticed, and answered, only at the next tick
     bound_ms = int((2 * cfg.ack_lim + cfg.nak_lim + 6) * longest * 1000) + max(w.link.delays_ms) + 1000
     ctx.info["bound_ms"] = bound_ms
     w.max_events = 20000
